@@ -121,6 +121,13 @@ Definition run_frame_stream (a : list Z) : list Z :=
   | _ => [-1]
   end.
 
+(* CMD scale_mode = 9 : reversed ifm_smaller -> op_to_scale written to IFM_PRECISION[9:8]; rescaled feature map is IFM? *)
+Definition run_scale_mode (a : list Z) : list Z :=
+  match a with
+  | [rv; sm] => let m := scale_mode (zb rv) (op_to_scale_ref (zb sm)) in [m; bz (rescaled_is_ifm (zb rv) m)]
+  | _ => [-1]
+  end.
+
 Definition run (cmd : Z) (a : list Z) : list Z :=
   if cmd =? 1 then run_emit_calls a
   else if cmd =? 2 then run_emit_trace a
@@ -130,4 +137,5 @@ Definition run (cmd : Z) (a : list Z) : list Z :=
   else if cmd =? 6 then run_checks a
   else if cmd =? 7 then run_misc_fields a
   else if cmd =? 8 then run_frame_stream a
+  else if cmd =? 9 then run_scale_mode a
   else [-1].
